@@ -83,6 +83,7 @@ package gateway
 //@   ghost protoSet bool = false
 //@   ghost fmtHost string = ""
 //@   ghost fmtOK bool = false
+//@   at call Hostname#1: assert the-asserted-host-is-the-requests-own-authority-for-http2-and-later-and-the-sni-only-for-http1-over-tls: callarg0 == out.URL && out.URL.Host == ((in.ProtoMajor > 2 || (in.ProtoMajor == 2 && in.ProtoMinor >= 0)) ? in.Host : (in.TLS != nil ? in.TLS.ServerName : in.Host))
 //@   at call Del#1: assert strips-from-the-outbound-request-before-asserting-anything: callarg0 == out.Header && !xf && !hostSet && !protoSet
 //@   at call Del#1: ghost deleted := add(deleted, callarg1)
 //@   at call SetXForwarded#1: assert forwarded-headers-are-derived-from-the-connection-after-stripping: callarg0 == preq && deleted["True-Client-IP"] && deleted["X-Real-IP"] && deleted["X-Forwarded-For"] && !hostSet && !protoSet
@@ -99,6 +100,21 @@ package gateway
 //@   ensures the-asserted-host-has-no-port-of-its-own: out.Host == out.URL.Host
 //@   loop header: invariant stripped-so-far: -1 <= rangeindex && rangeindex < 3 && !xf && !hostSet && !protoSet && (forall j int :: (0 <= j && j <= rangeindex) ==> deleted[delHeaders[j]]) && len(delHeaders) == 3 && delHeaders[0] == "True-Client-IP" && delHeaders[1] == "X-Real-IP" && delHeaders[2] == "X-Forwarded-For" && out == preq.Out && in == preq.In
 
+// The handler that serves tunnel traffic: the reverse proxy rewrites every request with proxyRewrite (and has no
+// Director), and no middleware is installed on the router in front of it - a middleware such as chi's RealIP
+// rewrites RemoteAddr from client-supplied headers, after which SetXForwarded derives X-Forwarded-For from the
+// client's claim (or drops it) instead of from the connection.
+//@ func (g *Gateway) proxyHandler(proxyLogger *log.Logger) (h http.Handler)
+//@   safety off
+//@   opt frame=off
+//@   ghost mounted int = 0
+//@   at call Use#?: assert no-middleware-rewrites-the-request-in-front-of-the-proxy: false
+//@   at call With#?: assert no-middleware-rewrites-the-request-in-front-of-the-proxy: false
+//@   at call Handle#*: assert the-catch-all-route-is-the-proxy: callarg0 == router && callarg1 == "/*" && dyntype(callarg2, "*httputil.ReverseProxy") && cast(callarg2, "*httputil.ReverseProxy") == proxy && mounted == 0
+//@   at call Handle#*: assert the-proxy-rewrites-with-proxyRewrite-and-has-no-director: isfunc(proxy.Rewrite, "proxyRewrite", g) && proxy.Director == nil
+//@   at call Handle#*: ghost mounted := mounted + 1
+//@   ensures local-the-router-with-the-proxy-is-returned: mounted == 1 && dyntype(h, "*chi.Mux") && cast(h, "*chi.Mux") == router
+
 // the package initializer gives the strip list its declared contents
 //@ func init()
 //@   safety off
@@ -114,6 +130,18 @@ package gateway
 //@   ghost routed bool = false
 //@   at call Route#1: assert internal-prefix-only-with-both-credentials-configured: a.authUser != "" && a.authPass != "" && callarg1 == "/_internal"
 //@   at call Route#1: ghost routed := true
+//@   ghost pkiPrefix string = ""
+//@   ghost pkiKnown bool = false
+//@   at after call PathPrefix#?: ghost pkiPrefix := callresult
+//@   at after call PathPrefix#?: ghost pkiKnown := true
+//@   at call Get#*: assert the-public-pages-are-the-only-routes-registered-directly: callarg1 == "/" || callarg1 == "/quic.png"
+//@   at call Mount#?: assert the-only-subtree-mounted-outside-the-protected-group-is-the-pki-service: pkiKnown && callarg0 == pkiPrefix
+//@   at call Handle#?: assert nothing-else-is-registered-outside-the-protected-group: false
+//@   at call HandleFunc#?: assert nothing-else-is-registered-outside-the-protected-group: false
+//@   at call Post#?: assert nothing-else-is-registered-outside-the-protected-group: false
+//@   at call Method#?: assert nothing-else-is-registered-outside-the-protected-group: false
+//@   at call MethodFunc#?: assert nothing-else-is-registered-outside-the-protected-group: false
+//@   at call Group#?: assert nothing-else-is-registered-outside-the-protected-group: false
 //@   ensures local-without-credentials-the-prefix-is-not-served: (a.authUser == "" || a.authPass == "") ==> !routed
 
 //@ func (a *apexServer) Mount$1(r chi.Router)
